@@ -21,11 +21,11 @@ def sh(cmd, **kw):
     return subprocess.run(cmd, shell=True, capture_output=True, text=True, **kw)
 
 
-def fresh_copy(name):
+def fresh_copy(name, commit="HEAD"):
     d = os.path.join(SCRATCH, name)
     shutil.rmtree(d, ignore_errors=True)
     os.makedirs(d)
-    r = sh("git -C /repo archive HEAD | tar -x -C %s" % d)
+    r = sh("git -C /repo archive %s | tar -x -C %s" % (commit, d))
     if r.returncode:
         raise SystemExit(r.stderr)
     return d
@@ -56,11 +56,17 @@ def build():
     shutil.rmtree(os.path.join(SCRATCH, "build"), ignore_errors=True)
 
 
-def run_one(mid, patch, prop, tier, tests, extra_args=""):
+def run_one(mid, patch, prop, tier, tests, extra_args="", base=None):
     d = fresh_copy(mid)
     res = {"id": mid, "property": prop}
     try:
-        r = sh("cd %s && patch -p1 -s < %s" % (d, patch))
+        r = sh("cd %s && patch -p1 -s --no-backup-if-mismatch < %s" % (d, patch))
+        if r.returncode and base:
+            # the change was written against an earlier commit of /repo (before a later fix: commit
+            # touched the same lines): demonstrate it on that commit
+            d = fresh_copy(mid, base)
+            r = sh("cd %s && patch -p1 -s --no-backup-if-mismatch < %s" % (d, patch))
+            res["base"] = base
         if r.returncode:
             res["error"] = "patch failed: " + r.stdout + r.stderr
             return res
@@ -112,7 +118,8 @@ def main():
             if allprops:
                 props = ["C01", "C03", "C04", "C05", "C08", "C10", "C16", "C17", "C20"]
             for prop in props:
-                r = run_one(sid, os.path.join(VERIF, "seeded", sid, "patch.diff"), prop, tier, tests)
+                r = run_one(sid, os.path.join(VERIF, "seeded", sid, "patch.diff"), prop, tier, tests,
+                            base=meta.get("base_commit"))
                 print(json.dumps(r))
                 results.append(r)
     missed = [r["id"] for r in results if not r.get("caught")]
